@@ -99,9 +99,9 @@ def run_verus_unit(prop, unit, workdir, out, tier, known):
             out.undecided.append('%s: unlisted assumption %s at assembled line %d' % (unit, item, ln))
         out.trusted.add('verus %s [%s]: %s' % (k, unit, name))
     res = verus_run.run_verus(path, meta, workdir, rlimit=UNIT_RLIMIT.get(unit))
+    missing = []
     if res['status'] == 'undecided' and res.get('compile_errors'):
         # the changed /repo may call helper functions the unit does not know: extract them (no contract) and try once more
-        missing = []
         for ce in res['compile_errors']:
             m1 = re.search(r'cannot find function `(\w+)` in this scope', ce['message'])
             m2 = re.search(r'no (?:method|function or associated item|associated function or constant|associated item) named `(\w+)` found for (?:struct|enum|mutable reference|reference) `&?(?:mut )?(\w+)', ce['message'])
@@ -119,6 +119,22 @@ def run_verus_unit(prop, unit, workdir, out, tier, known):
                     res = verus_run.run_verus(path, meta, workdir, rlimit=UNIT_RLIMIT.get(unit))
             except (assemble.LostAnchor, assemble.TemplateError):
                 pass
+    if res['status'] == 'undecided' and res.get('compile_errors') and all(ce.get('region') for ce in res['compile_errors']):
+        # every compile error lies inside an extracted function: typically a proof hint that names a local the changed code no longer
+        # has. Drop the hints of exactly those functions (degraded mode) and try once more; if the real code itself is what Verus
+        # rejects, the errors persist and the unit stays undecided.
+        bad = sorted(set(ce['region'] for ce in res['compile_errors']))
+        try:
+            text2, meta2 = assemble.assemble(tpl, REPO, lenient=bool(degraded), auto=(missing or None), degrade=bad)
+            path2 = os.path.join(workdir, 'unit_%s_deg.rs' % unit)
+            open(path2, 'w').write(text2)
+            res2 = verus_run.run_verus(path2, meta2, workdir, rlimit=UNIT_RLIMIT.get(unit))
+            if res2 and not res2.get('compile_errors'):
+                degraded = list(degraded) + meta2.get('dropped_anchors', [])
+                out.notes.append('%s: DEGRADED MODE, proof hints of %s no longer compile against the changed code and were dropped' % (unit, bad))
+                text, meta, res, path = text2, meta2, res2, path2
+        except (assemble.LostAnchor, assemble.TemplateError):
+            pass
     if res['status'] == 'undecided' and res.get('undecided') and not res.get('compile_errors'):
         # resource limit hit (typically while searching for a proof of a FAILING obligation): one retry with 4x the budget
         out.notes.append('%s: rlimit exceeded with default budget, retried with --rlimit 40' % unit)
